@@ -550,6 +550,63 @@ fn check_seq(live: &LiveIds, rt: &tokio::runtime::Runtime, c: &SeqCase, st: &mut
     Ok(())
 }
 
+#[derive(Clone, Debug, Serialize, Deserialize)]
+struct ConcCase {
+    clients: u8,
+    per_client: u8,
+    kinds: Vec<u8>,
+}
+
+/// many clients at once: ids must be unique across *concurrent* requests too
+fn check_concurrent(live: &LiveIds, rt: &tokio::runtime::Runtime, c: &ConcCase, st: &mut Stats) -> Result<(), Failure> {
+    let addr = live.addr;
+    let results: Vec<Result<Vec<(String, Option<String>)>, Failure>> = rt.block_on(async {
+        let mut hs = vec![];
+        for ci in 0..c.clients.max(1) {
+            let kinds = c.kinds.clone();
+            let per = c.per_client.max(1);
+            hs.push(tokio::spawn(async move {
+                let mut out = vec![];
+                let mut conn = http1::Conn::connect(addr).await.map_err(|e| Failure::new("connect", e.to_string()))?;
+                for i in 0..per {
+                    let k = kinds[(ci as usize + i as usize) % kinds.len()] % 4;
+                    let target = ["/plain?mode=ok", "/plain?mode=client&n=7", "/custom?mode=ok", "/nonexistent"][k as usize];
+                    let req = http1::build_request("GET", target, &[], None);
+                    conn.send(&req).await.map_err(|e| Failure::new("send", e.to_string()))?;
+                    let resp = conn.read_response(false, Duration::from_secs(20)).await.resp().map_err(|e| Failure::new("no-response", e))?;
+                    let id = resp.header("x-request-id").ok_or_else(|| Failure::new("request-id-missing", format!("GET {}: status {}", target, resp.status)))?;
+                    let seen = resp.json().and_then(|j| {
+                        j["seen_id"].as_str().map(|s| s.to_string()).or_else(|| j["message"].as_str().and_then(|m| m.strip_prefix("seen_id=").map(|s| s.to_string())))
+                    });
+                    out.push((id, if k < 3 { Some(seen.unwrap_or_default()) } else { None }));
+                }
+                Ok(out)
+            }));
+        }
+        let mut v = vec![];
+        for h in hs {
+            v.push(h.await.unwrap_or_else(|e| Err(Failure::new("client-task", e.to_string()))));
+        }
+        v
+    });
+    let mut batch: HashSet<String> = HashSet::new();
+    for r in results {
+        for (id, seen) in r? {
+            st.eval();
+            ensure!(batch.insert(id.clone()), "request-id-reused", "request id {} was handed to two concurrent requests", id);
+            ensure!(live.all_ids.lock().unwrap().insert(id.clone()), "request-id-reused", "request id {} was used before", id);
+            if let Some(s) = seen {
+                ensure!(s == id, "handler-id-mismatch", "handler saw {:?}, response header says {}", s, id);
+            }
+        }
+    }
+    if c.clients >= 4 {
+        st.nontrivial(hash_of(&format!("{:?}", c)));
+    }
+    st.sample(|| json!({"clients": c.clients, "requests_per_client": c.per_client}));
+    Ok(())
+}
+
 pub fn run(ctx: &mut Ctx) {
     ctx.rule = "all 65536 u16 offered to both status types through every conversion (non-trivial: values within 5 of 400/600 or at a hundred boundary); generated errors = constructor x admissible status x message/code/header/request-id text (non-trivial: non-ASCII or control text, attached headers, or unusual status; distinct by full case); live sequences of mixed success/error requests (non-trivial: >=4 requests of >=3 kinds)".into();
     ctx.assume("attached header names avoid content-type/x-request-id/framing headers; request ids offered to into_response are legal header values (the server only generates UUIDs)");
@@ -577,6 +634,12 @@ pub fn run(ctx: &mut Ctx) {
         let strat = (proptest::collection::vec(req_strategy(), 1..24), any::<bool>())
             .prop_map(|(reqs, keepalive)| SeqCase { reqs, keepalive });
         ctx.phase("live_request_ids", n, strat, |c, st| check_seq(&live, &rt, c, st));
+    }
+    {
+        let rt = tokio::runtime::Builder::new_multi_thread().worker_threads(4).enable_all().build().unwrap();
+        let n = ctx.tier.pick(150, 3000);
+        let strat = (1u8..24, 1u8..20, proptest::collection::vec(any::<u8>(), 1..8)).prop_map(|(clients, per_client, kinds)| ConcCase { clients, per_client, kinds });
+        ctx.phase("concurrent_request_ids", n, strat, |c, st| check_concurrent(&live, &rt, c, st));
     }
     let _ = ctx.rt.block_on(live.server.close());
 }
